@@ -1008,6 +1008,14 @@ function_number_t define_new_function (char *name, int num_arg, int num_local, u
     {
       /* add a new compiler_function_t at end of A_COMPILER_FUNCTIONS area */
       num = (int)(mem_block[A_COMPILER_FUNCTIONS].current_size / sizeof (compiler_function_t));
+      if (num >= SHRT_MAX || mem_block[A_FUNCTION_FLAGS].current_size / sizeof (function_flags_t) >= SHRT_MAX)
+        {
+          /* function numbers are kept in shorts (identifier table): the table is full.
+           * The compilation fails; the last function stands in for the caller's bookkeeping */
+          yyerror ("Too many functions in one program.");
+          make_shared_string (name);	/* the caller drops its reference, expecting the table to hold one */
+          return (function_number_t)(num - 1);
+        }
       funp = (compiler_function_t *) allocate_in_mem_block (A_COMPILER_FUNCTIONS, sizeof (compiler_function_t));
 
       funp->name = make_shared_string (name);
